@@ -75,7 +75,7 @@ static void check_listing(econf_file *kf, const e2_model *m, const char *sig, co
 static void check_gets(econf_file *kf, e2_model *m, const char *sig, const char *when)
 {
   static const char *secs0[11] = { NULL, "", "A", "[A]", "B", "[B]", "C", "Z", "AB", "[AB]", "[]" }, *keys0[8] = { "x", "y", "z", "p8", "q", "xy", "X" };
-  static const char *secs1[11] = { NULL, "", "Az", "[Az]", "BY", "[BY]", "C", "s[0]", "B", "[B]", "[]" }, *keys1[8] = { "xz", "y", "z", "p8", "yY", "x", "XZ" };
+  static const char *secs1[11] = { NULL, "", "Az", "[Az]", "BY", "[BY]", "C", "s[0]", "B", "[B]", "[]" }, *keys1[8] = { "xz", "xz ", "z", "p8", "yY", "x", "XZ" };   /* "xz " ends in a blank: a key is stored and looked up exactly as it is spelled */
   const char **secs = odd_names ? secs1 : secs0, **keys = odd_names ? keys1 : keys0;
   for (int si = 0; si < 11; si++) for (int ki = 0; ki < 7 && !mc_case_failed; ki++) {
     e2_ent *e = e2m_find(m, e2_canon_sec(secs[si]), keys[ki]);
@@ -185,8 +185,8 @@ int main(int argc, char **argv)
   if (mc_opt.param[2]) start_mask = (int)mc_opt.param[2];
   odd_names = (int)mc_opt.param[4];
   if (odd_names) {
-    e2_sec[0] = NULL; e2_sec[1] = "[]"; e2_sec[2] = "Az"; e2_sec[3] = "[BY]"; e2_sec[4] = "BY"; e2_sec[5] = "s[0]"; e2_nsec = 6;
-    e2_key[0] = "xz"; e2_key[1] = "yY"; e2_nkey = 2;
+    e2_sec[0] = NULL; e2_sec[1] = "[]"; e2_sec[2] = "Az"; e2_sec[3] = "[BY]"; e2_nsec = 4;   /* the plain spelling BY and the array-style s[0] are used by the getters / typed setters */
+    e2_key[0] = "xz"; e2_key[1] = "yY"; e2_key[2] = "xz "; e2_nkey = 3;
   }
   bfs_nstarts = 8; bfs_nops = e2_nsec * e2_nkey * e2_nval;
   if (mc_opt.case_id) {
